@@ -7,16 +7,23 @@ import (
 
 // suites maps a suite name to its case enumeration per tier.
 var suites = map[string]func(tier string) []*families.Case{
-	"beh": behSuite,
-	"f2":  f2Suite,
+	"beh":  behSuite,
+	"f2":   f2Suite,
 	"hist": histSuite,
 	"f11":  func(tier string) []*families.Case { return families.F11(5, 5, []string{"", "s", "is"}) },
 	"f13":  func(tier string) []*families.Case { return families.F13(4, []string{""}, 24) },
-	"f11q": func(tier string) []*families.Case { return families.F11(4, 4, []string{"", "s"}) },
-	"f1q":  func(tier string) []*families.Case { return families.F1(1, 3, 3, []string{"", "i", "s", "is", "n", "nis"}) },
-	"f12":  func(tier string) []*families.Case { return families.F12(3, []string{"", "i", "n"}) },
-	"f2d":  func(tier string) []*families.Case { return families.F2D(3, 8, 3, []string{"", "s", "is"}) },
-	"f17":  func(tier string) []*families.Case {
+	"f11q": func(tier string) []*families.Case {
+		return families.WithSentences(families.F11(4, 4, []string{"", "s"}), 6, 4, 12)
+	},
+	"f5q": func(tier string) []*families.Case {
+		return families.WithSentences(families.F5(4, []string{"", "is"}), 5, 4, 10)
+	},
+	"f1q": func(tier string) []*families.Case {
+		return families.F1(1, 3, 3, []string{"", "i", "s", "is", "n", "nis"})
+	},
+	"f12": func(tier string) []*families.Case { return families.F12(3, []string{"", "i", "n"}) },
+	"f2d": func(tier string) []*families.Case { return families.F2D(3, 8, 3, []string{"", "s", "is"}) },
+	"f17": func(tier string) []*families.Case {
 		return append(families.F17(4, []string{"", "is", "n", "nis"}), families.F18(6, []string{"", "is"})...)
 	},
 	"f23":  func(tier string) []*families.Case { return families.F23([]string{"", "s", "is"}) },
@@ -86,12 +93,12 @@ func behSuite(tier string) []*families.Case {
 		cs = append(cs, families.F2D(4, 6, 3, []string{"", "s"})...)
 		cs = append(cs, families.F3(4, spec.AllVariants)...)
 		cs = append(cs, families.F4(3, spec.AllVariants)...)
-		cs = append(cs, families.F5(4, ast)...)
+		cs = append(cs, families.WithSentences(families.F5(4, ast), 6, 8, 14)...)
 		cs = append(cs, families.F6(4, 4, []string{"", "is", "n", "ni", "ns"})...)
 		cs = append(cs, families.F7(3, 3, []string{"", "is", "n"})...)
 		cs = append(cs, families.F8(3, 3, []string{"", "i", "s", "n", "ns"})...)
 		cs = append(cs, families.F10(4, 4, []string{"", "i"})...)
-		cs = append(cs, families.F11(6, 5, []string{"", "s", "is"})...)
+		cs = append(cs, families.WithSentences(families.F11(6, 5, []string{"", "s", "is"}), 7, 6, 14)...)
 		cs = append(cs, families.F12(4, spec.AllVariants)...)
 		cs = append(cs, families.F13(4, []string{"", "is"}, 0)...)
 		cs = append(cs, families.F14(4, spec.AllVariants)...)
@@ -116,12 +123,12 @@ func behSuite(tier string) []*families.Case {
 		cs = append(cs, families.F2D(2, 15, 4, []string{"", "s", "is", "ns"})...)
 		cs = append(cs, families.F3(3, []string{"", "is", "n"})...)
 		cs = append(cs, families.F4(3, []string{"", "s", "n"})...)
-		cs = append(cs, families.F5(4, []string{"", "is"})...)
+		cs = append(cs, families.WithSentences(families.F5(4, []string{"", "is"}), 5, 4, 10)...)
 		cs = append(cs, families.F6(4, 3, []string{"", "n"})...)
 		cs = append(cs, families.F7(2, 3, []string{"", "is"})...)
 		cs = append(cs, families.F8(3, 3, []string{"", "n"})...)
 		cs = append(cs, families.F10(4, 4, []string{""})...)
-		cs = append(cs, families.F11(4, 4, []string{"", "s"})...)
+		cs = append(cs, families.WithSentences(families.F11(4, 4, []string{"", "s"}), 6, 4, 12)...)
 		cs = append(cs, families.F12(3, []string{"", "i", "n"})...)
 		cs = append(cs, families.F13(4, []string{""}, 24)...)
 		cs = append(cs, families.F14(4, []string{"", "is", "n"})...)
